@@ -239,6 +239,27 @@ func c02Value(cs *core.Case, p rtcp.Packet) {
 		}
 	}
 
+	// the texts of a decoded packet are Go strings: overwriting the buffer the packet was decoded
+	// from (as a receive loop does with the next datagram) may not change them
+	if derr == nil && got != nil {
+		before := mon.Strings(got)
+		if len(before) > 0 {
+			for i := range in {
+				in[i] = in[i]*167 + 13
+			}
+			after := mon.Strings(got)
+			same := len(before) == len(after)
+			for i := 0; same && i < len(before); i++ {
+				same = before[i] == after[i]
+			}
+			cs.Eval(1)
+			cs.Count("strings-after-input-overwritten/" + k.String())
+			if !same {
+				cs.Fail("own-decoder/text-changed-when-input-buffer-was-overwritten/"+k.String(), det(core.W{"texts_before": before, "texts_after": after})())
+			}
+		}
+	}
+
 	// datagram decoder
 	dkfs := kfOf(p, true)
 	ps, uerr, upan := gUnmarshal(cloneBytes(b))
